@@ -1454,6 +1454,14 @@ func HandleUploadFile(cc *hotline.ClientConn, t *hotline.Transaction) (res []hot
 
 	replyT := cc.NewReply(t, hotline.NewField(hotline.FieldRefNum, ft.RefNum[:]))
 
+	// A new (non-resume) upload starts from scratch: discard the partial data of an earlier, interrupted upload of the
+	// same name, which the transfer would otherwise be appended to.
+	if transferOptions == nil {
+		if err := cc.Server.FS.Remove(fullFilePath + hotline.IncompleteFileSuffix); err != nil && !os.IsNotExist(err) {
+			return res
+		}
+	}
+
 	// client has requested to resume a partially transferred file
 	if transferOptions != nil {
 		fileInfo, err := cc.Server.FS.Stat(fullFilePath + hotline.IncompleteFileSuffix)
